@@ -845,7 +845,7 @@ def check_c12(exe, tier, seed, verdict):
     ok += check_longnames_fold(exe, verdict)
     cov = {"states": r.distinct, "transitions": r.generated, "traces_validated_against_impl": ok,
            "evaluations": len(recs) * 9, "distinct_nontrivial": nn,
-           "rule": "every 2-layer tree (main x4 per layer, every subset of 3 names per layer, content shapes) exported by TLC (%d trees, %d replayed): econf_readDirs, econf_readDirsWithCallback, econf_readConfig(+WithCallback) with PARSING_DIRS=<the same two directories>, econf_readDirsHistory(+WithCallback) econf_readDirs under econf_set_conf_dirs, and econf_readDirs(+WithCallback) with the directories as relative names, with trailing and with doubled slashes are all run on the SAME tree and each compared with the specification's expectation (so with each other; every fourth tree in a directory whose name holds list separators, blanks, delimiter / comment / format characters, brackets or non-ASCII bytes - all entry points but the option-string route); history members: path -> file identity, own content, order; model invariant HistoryFolds: folding the history with masking gives the result. The same under a non-default process-wide drop-in directory list, and with the suffix NULL / empty (every directory entry counts; %d trees over the names .conf, a.conf, a.conf.bak, conf): all merged-result entry points agree, both history variants agree and the delivered history folded with masking (Trace_Layers!THistFold) gives the result; the same with ONE drop-in name of 6, 64, 200, 254 and 255 bytes present in both layers. While a process-wide requirement (owner / group / file permission bits / directory permission bits, in rotation) is in force that one file of the tree does not fulfil, the six entry points answer with the same return code and result (%d trees). non-trivial = >= 2 files consulted and all seven calls compared." % (total, len(recs), nns, nreq),
+           "rule": "every 2-layer tree (main x4 per layer, every subset of 3 names per layer, content shapes) exported by TLC (%d trees, %d replayed): econf_readDirs, econf_readDirsWithCallback, econf_readConfig(+WithCallback) with PARSING_DIRS=<the same two directories>, econf_readDirsHistory(+WithCallback) econf_readDirs under econf_set_conf_dirs, and econf_readDirs(+WithCallback) with the directories as relative names, with trailing and with doubled slashes are all run on the SAME tree and each compared with the specification's expectation (so with each other; every fourth tree in a directory whose name holds list separators, blanks, delimiter / comment / format characters, brackets or non-ASCII bytes - all entry points but the option-string route); history members: path -> file identity, own content, order; model invariant HistoryFolds: folding the history with masking gives the result. The same under a non-default process-wide drop-in directory list (for every second tree put in force AFTER the option objects of the econf_readConfig variants were made), and with the suffix NULL / empty (every directory entry counts; %d trees over the names .conf, a.conf, a.conf.bak, conf): all merged-result entry points agree, both history variants agree and the delivered history folded with masking (Trace_Layers!THistFold) gives the result; the same with ONE drop-in name of 6, 64, 200, 254 and 255 bytes present in both layers. While a process-wide requirement (owner / group / file permission bits / directory permission bits, in rotation) is in force that one file of the tree does not fulfil, the six entry points answer with the same return code and result (%d trees). non-trivial = >= 2 files consulted and all seven calls compared." % (total, len(recs), nns, nreq),
            "samples": [{"tree": tree_text({"main": x["main"], "drop": x["drop"], "shp": x["shp"]}), "history": x["hist"]} for x in recs[100:101]],
            "exhaustive": tier == "thorough",
            "trusted_base": ["TLC 1.8.0", "gcc ASan/UBSan", "drv.c"]}
@@ -925,10 +925,21 @@ def check_confdirs(exe, recs, verdict):
                 s.append("file %s %s" % (hx(d + "/cfg/alt.d/zz-alt%d.conf" % l), hx("K=alt%d\nALT%d=1\n" % (l, l))))
             if (i + l) % 4 == 0:   # same name as a normal drop-in of the other postfix directory of a HIGHER layer is avoided: unique names only
                 s.append("file %s %s" % (hx(d + "/cfg/alt.d/y-alt.conf"), hx("Y=%d\n" % l)))
-        sc = s + ["setconfdirs %s %s" % (hx(".conf.d"), hx("/alt.d"))]
+        # every second tree: the option objects of the two econf_readConfig variants are made BEFORE the list is put in force
+        # (while another list, or the default one, is): what counts is the list in force when the read happens
+        early = {}
+        sc = list(s)
+        if i % 2:
+            if i % 4 == 1:
+                sc.append("setconfdirs %s" % hx(".other.d"))
+            for ent, hh in (("rc2", 21), ("rc2cb", 31)):
+                c_ = Shape(ent, 2).call(hh, R, cb=ent.endswith("cb"))
+                sc.append(c_[0])
+                early[ent] = c_[1:]
+        sc += ["setconfdirs %s %s" % (hx(".conf.d"), hx("/alt.d"))]
         h = 1
         for ent in ("readdirs", "readdirscb", "rc2", "rc2cb"):
-            sc += ["cbreset"] + Shape(ent, 2).call(h, R, cb=ent.endswith("cb")) + ["dump %d" % h, "free %d" % h]
+            sc += ["cbreset"] + (early[ent] if ent in early else Shape(ent, 2).call(h, R, cb=ent.endswith("cb"))) + ["dump %d" % h, "free %d" % h]
             h += 10
         for ent in ("readhist", "readhistcb"):
             sc += ["cbreset"] + Shape(ent, 2).call(h, R, cb=ent.endswith("cb")) + ["dump %d" % k for k in range(h, h + 10)] + ["free %d" % k for k in range(h, h + 10)]
